@@ -118,7 +118,8 @@ def check(case: Dict[str, Any]) -> CaseInfo:
             require(int(g["correlation"]) == int(r.correlation), "field:correlation", desc)
             require(ex(g["ts"]) == ex(ts - shift), "time:ts_is_file_ts_minus_constant", lambda: desc() + f" expected ts {ts} - {shift}")
             require(ex(g["end"]) == ex(g["ts"]) + ex(g["dur"]), "time:end_is_ts_plus_dur", desc)
-            require(ex(g["end"]) == ex(end - shift), "time:end", lambda: desc() + f" expected end {end} - {shift}")
+            # (ts - shift) + dur, in this order: with a fractional dur the two roundings of (ts + dur) - shift differ in the last bit
+            require(ex(g["end"]) == ex((ts - shift) + dur), "time:end", lambda: desc() + f" expected end ({ts} - {shift}) + {dur}")
             overall_min = ex(g["ts"]) if overall_min is None else min(overall_min, ex(g["ts"]))
         # rounding is inward and preserves containment / disjointness within one (pid, tid)
         items = list(exp.values())
@@ -137,7 +138,9 @@ def check(case: Dict[str, Any]) -> CaseInfo:
     frac = case.get("fractional", False)
     classes += ["kind:" + k for k in kinds]
     classes.append("mode:" + mode)
-    if frac:
+    if frac == "dur":
+        classes.append("whole_ts_fractional_dur")
+    elif frac:
         classes.append("fractional")
     if len(case["ranks"]) >= 2:
         classes.append("multi_rank")
@@ -154,7 +157,7 @@ def check(case: Dict[str, Any]) -> CaseInfo:
     fmts = case.get("fmt")
     if isinstance(fmts, list) and len(set(fmts[: len(case["ranks"])])) >= 2:
         classes.append("mixed_formats")
-    nt = len(kinds) >= 2 and (len(case["ranks"]) >= 2 or frac)
+    nt = len(kinds) >= 2 and (len(case["ranks"]) >= 2 or bool(frac))
     return CaseInfo(nontrivial=nt, classes=classes)
 
 
@@ -178,9 +181,9 @@ def sim_load_case():
 def campaigns(tier: str) -> List[Campaign]:
     return [
         Campaign("raw_files", raw_case(), check, quick=640, thorough=32000, quick_shards=8,
-                 required_classes={"fractional": 0.3, "multi_rank": 0.4, "kind:M:": 0.25, "kind:X:Trace": 0.1, "kind:X:incomplete": 0.1,
+                 required_classes={"fractional": 0.15, "multi_rank": 0.4, "kind:M:": 0.25, "kind:X:Trace": 0.1, "kind:X:incomplete": 0.1,
                                    "mode:parse": 0.1, "mode:load": 0.15, "mode:analysis": 0.12, "rounding_changes_a_stamp": 0.15,
-                                   "multiprocessing": 0.2, "more_than_8_ranks": 0.025, "stamps_beyond_2**53": 0.04},
+                                   "multiprocessing": 0.2, "more_than_8_ranks": 0.025, "stamps_beyond_2**53": 0.04, "whole_ts_fractional_dur": 0.1},
                  sample_view=view),
         Campaign("sim_files", sim_load_case(), check, quick=160, thorough=8000, quick_shards=8, sample_view=view),
     ]
